@@ -24,6 +24,8 @@ import (
 	"fmt"
 	"time"
 
+	"github.com/projectcalico/calico/libcalico-go/lib/backend/model"
+
 	"verif/internal/calcgen"
 	"verif/internal/harness"
 	"verif/internal/shadowdp"
@@ -110,12 +112,29 @@ func run(c *harness.Case) {
 	}
 }
 
+// allTiersAbsent reports whether none of the named tiers has a Tier resource in the final state.
+func allTiersAbsent(sc *calcgen.Scenario, names []string) bool {
+	for _, k := range sc.U.KeysOfClass(calcgen.ClassTier) {
+		tk := sc.U.Keys[k].Key.(model.TierKey)
+		for _, n := range names {
+			if tk.Name == n && sc.H.Final[k] != calcgen.Absent {
+				return false
+			}
+		}
+	}
+	return true
+}
+
 // compare reports one violation per distinct kind of difference (class, kind, differing fields).
 func compare(c *harness.Case, sc *calcgen.Scenario, prefix, legend string, a, b *shadowdp.State, extra map[string]any) {
 	entries := shadowdp.DiffEntries(a, b)
 	seen := map[string]bool{}
 	for _, e := range entries {
 		key := prefix + ":" + e.Key()
+		if len(e.TiersOnlyDefaultAction) > 0 && allTiersAbsent(sc, e.TiersOnlyDefaultAction) {
+			// only the default_action of tiers whose Tier resource is absent from the final state
+			key += "@absent-tier"
+		}
 		if seen[key] {
 			continue
 		}
